@@ -1,6 +1,7 @@
 """C14 — bags conserve items; rebalance evens them out (DESIGN §5 C14)."""
 from . import *
 from . import partition as P
+from . import containers as CT
 
 def run(tier, seed, replay=None):
     maxT = 14 if tier == 'quick' else 40
@@ -20,7 +21,13 @@ def run(tier, seed, replay=None):
             for k in [(4, r, 2, 0) for r in range(4)]:
                 if k in B:
                     samples.append({'R': 4, 'rank': k[1], 'T': 2, 'placement': 'all on rank 0', 'before': B[k][0], 'after': B[k][1]})
-        return {'ok': msg is None and not fails, 'msg': msg, 'failures': fails, 'validated': nrows,
+        ct = CT.evaluate('C14', seed, tier)
+        fails += ct.get('failures', [])
+        if ct.get('msg') and msg is None:
+            msg = ct['msg']
+        nrows += ct.get('validated', 0)
+        hist_extra = ct.get('extra', {})
+        return {'extra': {'histories': ct.get('evaluations', 0), 'history_cases_checked_in_coq': ct.get('validated', 0), 'history_details': hist_extra}, 'ok': msg is None and not fails, 'msg': msg, 'failures': fails, 'validated': nrows,
                 'evaluations': n, 'nontrivial': nt, 'exhaustive': True,
                 'rule': 'every (R in %s, total 0..%d, 4 placements: all on rank 0 / all on last rank / round robin / scattered): insert, rebalance, gather; non-trivial: total not divisible by R or < R' % (sizes, maxT),
                 'samples': samples,
